@@ -168,7 +168,25 @@ def check(run: Run) -> None:
     # ---- R4
     mi = model.module_of(MOD)
     glob = {k for k, v in mi.assigns.items() if isinstance(v, (ast.Dict, ast.List, ast.Set)) or (isinstance(v, ast.Call) and ast.unparse(v.func).split(".")[-1] in ("dict", "set", "list", "defaultdict", "OrderedDict", "lru_cache"))}
-    used = sorted(glob & set().union(*[names_loaded(f.node) for f in slice_fns]))
+    # ... that is WRITTEN somewhere in the module (an item / attribute store, a mutating method call, a `global` rebinding): a table that is only read is a constant, not a cache
+    mutated: set = set()
+    for f in mi.funcs.values():
+        for n in ast.walk(f.node):
+            if isinstance(n, (ast.Subscript, ast.Attribute)) and isinstance(n.ctx, (ast.Store, ast.Del)) and isinstance(n.value, ast.Name):
+                mutated.add(n.value.id)
+            if isinstance(n, ast.Call) and isinstance(n.func, ast.Attribute) and isinstance(n.func.value, ast.Name) and n.func.attr in (
+                    "setdefault", "update", "add", "append", "extend", "insert", "pop", "popitem", "clear", "remove", "discard", "__setitem__"):
+                mutated.add(n.func.value.id)
+            if isinstance(n, ast.Global):
+                mutated.update(n.names)
+    for c in mi.classes.values():
+        for m in c.methods.values():
+            for n in ast.walk(m.node):
+                if isinstance(n, (ast.Subscript, ast.Attribute)) and isinstance(n.ctx, (ast.Store, ast.Del)) and isinstance(n.value, ast.Name):
+                    mutated.add(n.value.id)
+                if isinstance(n, ast.Call) and isinstance(n.func, ast.Attribute) and isinstance(n.func.value, ast.Name) and n.func.attr in ("setdefault", "update", "add", "append", "extend", "insert", "pop", "clear"):
+                    mutated.add(n.func.value.id)
+    used = sorted(glob & mutated & set().union(*[names_loaded(f.node) for f in slice_fns]))
     run.check("C15.R4", "no module-level cache of expanded clauses", not used, "_saved_queries", used[0] if used else "-",
               f"module-level container `{used[0] if used else ''}` is consulted during expansion: an expanded clause is reused although a nested saved query changed or was deleted",
               file=FILE)
@@ -310,6 +328,49 @@ def _top_level_pipe(clause: str) -> bool:
     return False
 
 
+def _canon(text: str):
+    """Canonical filter tree of a WHERE text made of words, `|` and parentheses: juxtaposition = AND, `|` = OR, redundant parentheses removed
+    (a group holding one item is that item; an AND inside an AND / an OR inside an OR is spliced in).  None when the parentheses do not balance."""
+    toks = text.replace("(", " ( ").replace(")", " ) ").split()
+    pos = 0
+
+    def parse_or():
+        nonlocal pos
+        alts = [parse_and()]
+        while pos < len(toks) and toks[pos] == "|":
+            pos += 1
+            alts.append(parse_and())
+        flat = []
+        for a in alts:
+            flat.extend(a[1:] if isinstance(a, tuple) and a[0] == "or" else [a])
+        return flat[0] if len(flat) == 1 else ("or",) + tuple(flat)
+
+    def parse_and():
+        nonlocal pos
+        items = []
+        while pos < len(toks) and toks[pos] not in ("|", ")"):
+            if toks[pos] == "(":
+                pos += 1
+                inner = parse_or()
+                if pos >= len(toks) or toks[pos] != ")":
+                    raise ValueError("unbalanced")
+                pos += 1
+                items.append(inner)
+            else:
+                items.append(toks[pos])
+                pos += 1
+        flat = []
+        for a in items:
+            flat.extend(a[1:] if isinstance(a, tuple) and a[0] == "and" else [a])
+        return flat[0] if len(flat) == 1 else ("and",) + tuple(flat)
+
+    try:
+        tree = parse_or()
+    except ValueError:
+        return None
+    return tree if pos == len(toks) else None
+
+
 def _refs_closure(pages: dict, names: list) -> set:
     """The scenario's saved queries reachable from `names` through {references} in their first lines."""
     import re
@@ -334,7 +395,9 @@ def expansion_scenarios(run: Run, model: PyModel) -> None:
     from ..virtual import World, vpath
 
     pages = {"plain": "# W +p O alpha", "alt": "# W a | b\n\n- some old result", "outer": "# W x {alt}", "grp": "# W (o +aa) | (- +bb) G file", "dangling": "# W y {nope}",
-             "leaf": "# W +leaf", "left": "# W l {leaf}", "right": "# W r {leaf}", "dia": "# W {left} {right}"}
+             "leaf": "# W +leaf", "left": "# W l {leaf}", "right": "# W r {leaf}", "dia": "# W {left} {right}",
+             # a diamond whose shared corner has alternatives: EVERY use of it must arrive grouped
+             "altleaf": "# W %ann | %bob", "home": "# W @home {altleaf}", "work": "# W @work {altleaf}", "both": "# W {home} {work}"}
     W = World(model, files={}, old_map=None, indexed=set(), errors=set(), whitelist=[""], contents={f"/Z/zoq/{k}.zoq": v for k, v in pages.items()}, missing="all-but-contents")
     from ..absint import Interp, State
 
@@ -344,7 +407,9 @@ def expansion_scenarios(run: Run, model: PyModel) -> None:
     cases = [("W z {plain}", [("plain", clause["plain"])]), ("W z {alt}", [("alt", clause["alt"])]), ("W {alt} z", [("alt", clause["alt"])]), ("W z {outer}", [("outer", clause["outer"])]),
              ("W z {grp}", [("grp", clause["grp"])]), ("W {plain} {alt}", [("plain", clause["plain"]), ("alt", clause["alt"])]), ("W z {nope}", None), ("W z {dangling}", None), ("W plain text", []),
              # a saved query reached along two paths of an ACYCLIC reference graph (diamond), and the same reference twice in one query
-             ("W z {dia}", [("dia", "l +leaf r +leaf")]), ("W {left} {right}", [("left", "l +leaf"), ("right", "r +leaf")]), ("W {plain} z {plain}", [("plain", clause["plain"])])]
+             ("W z {dia}", [("dia", "l +leaf r +leaf")]), ("W {left} {right}", [("left", "l +leaf"), ("right", "r +leaf")]), ("W {plain} z {plain}", [("plain", clause["plain"])]),
+             ("W {home} {work}", [("home", "@home (%ann | %bob)"), ("work", "@work (%ann | %bob)")]), ("W z {both}", [("both", "@home (%ann | %bob) @work (%ann | %bob)")]),
+             ("W {altleaf} z {altleaf}", [("altleaf", "%ann | %bob")]), ("W {home} {altleaf}", [("home", "@home (%ann | %bob)"), ("altleaf", "%ann | %bob")])]
     n = 0
     for q, refs in cases:
         try:
@@ -381,7 +446,11 @@ def expansion_scenarios(run: Run, model: PyModel) -> None:
             run.check("C15.R4", f"{q!r}: every saved query the expansion depends on is read from its file on this call", not unread, "expand_saved_queries", f"{q!r}: not read: {unread}",
                       f"expanding {q!r} does not read {unread} although the result depends on them: a clause is taken from somewhere else than the saved query's page (a cache), so an edit or deletion "
                       "of that page is not seen", file=FILE)
-            ok = isinstance(v, str) and v in accept
+            # ... or anything that denotes the same filter tree (redundant parentheses around a group / a single item do not matter)
+            full = q
+            for name, cl in refs:
+                full = full.replace("{" + name + "}", f"({cl})")
+            ok = isinstance(v, str) and (v in accept or ("{" not in v and _canon(v[2:]) is not None and _canon(v[2:]) == _canon(full[2:])))
             why = ""
             if isinstance(v, str) and not ok:
                 if "{" in v:
